@@ -34,7 +34,7 @@ Proof. exact decl_count. Qed.
 Print Assumptions C08_decl_count.
 
 Theorem C08_decl_count_length : forall fs k,
-  length (contexts_of k (compile fs)) = length (filter (fun d => d_key d =? k) (declarations fs)).
+  List.length (contexts_of k (compile fs)) = List.length (filter (fun d => d_key d =? k) (declarations fs)).
 Proof. exact decl_count_length. Qed.
 Print Assumptions C08_decl_count_length.
 
